@@ -149,6 +149,11 @@ func (f *FieldCopyToGenerator) genZeroValue(fieldName string) func(*j.Group) {
 				isZero = j.Id("obj." + f.ParentIsOptionalEmbedFieldName).Op("==").Nil().Op("||").Add(isZero)
 			}
 			g.Id("v.Null").Op("=").Add(isZero)
+		} else if f.OneOfName != "" && !f.IsNullable {
+			// An inactive oneOf branch reads as the zero value and has to be rendered as null,
+			// otherwise it would take the place of the active branch when the object is read back
+			g.Var().Id("z").Id(f.i.WithType(f.GoElemType))
+			g.Id("v.Null").Op("=").Id(fieldName).Op("==").Id("z")
 		} else {
 			g.Id("v.Null").Op("=").False()
 		}
